@@ -96,3 +96,26 @@ package tcp
 //@   ensures sel("select#1") == 0 ==> err == mangos.ErrClosed && !spawned("Listen$1") && !called("Listen")
 //@   ensures sel("select#1") != 0 && !isnil(lerr) ==> err == lerr && !spawned("Listen$1")
 //@   ensures sel("select#1") != 0 && isnil(lerr) ==> isnil(err) && spawned("Listen$1")
+
+// ---- round 12: listener Accept / Close / Address ----
+//@ func (*listener).Accept
+//@   ghost wp = result0 at call:Wait#1
+//@   ghost we = result1 at call:Wait#1
+//@   ensures isnil(l.l) ==> result1 == mangos.ErrClosed && isnil(result0) && !called("Wait")
+//@   ensures !isnil(l.l) ==> called("Wait") && result0 == wp && result1 == we
+//@
+//@ func (*listener).Close
+//@   ensures isnil(result)
+//@
+//@ func (*listener).Close$1
+//@   ensures closed(l.closeq) && called("Close")
+//@   before call:Close#1 assert !isnil(l.l) && closed(l.closeq)
+//@
+//@ func (*listener).Address
+//@   ghost bs = result at call:String#1
+//@   ensures isnil(l.bound) ==> result == "tcp://" + l.addr
+//@   ensures !isnil(l.bound) ==> result == "tcp://" + bs
+
+// ---- round 12: the scheme string ----
+//@ func (tcpTran).Scheme
+//@   ensures result == "tcp"
